@@ -4,15 +4,45 @@
    with referrers, redirects, per-module dependency lists with code/type
    targets, attributes and dynamic flags, configured imports, loader calls).
 
-   Proved so far (PARTIAL): every specifier has at most one entry
-   (C01_single_entry); a completed build has no pending entry (C03); each
-   module's recorded dependencies are the declaration the real parser gives
-   for its source, adjusted only by the graph kind (C01_recorded_deps).
-   NOT yet proved: the two-sided closure statement "has an entry iff reachable
-   through followed edges" (C01_closure); it is checked per case by the
-   correspondence and, independently of the model, by the walk (C15) on the
-   real graph: every followed edge of every real module must lead to an entry. *)
-From DG Require Import Base.Util Base.Sexp Model.Graph Model.Builder Proofs.BuilderProofs.
+   Proved: NOTHING REACHABLE IS ABSENT (C01_complete): after a completed build
+   from an empty graph, every root, every configured type-import target and
+   every followed dependency target (code and type side as recorded, dynamic
+   ones unless skip_dynamic_deps; the types dependency) of every module entry
+   is settled: following the recorded redirects from it reaches an entry - for
+   EVERY world (any loader answers, redirect chains and loops, faults), graph
+   kind and option set, by an invariant over every step of the build loop
+   (Proofs/ClosureProofs.v).  Also: at most one entry per specifier, no pending
+   entry (C03), recorded dependencies are the real parser's declaration
+   adjusted only by the graph kind.
+   NOT yet proved (PARTIAL): the converse "nothing unreachable is present"
+   (C01_sound); it is checked per case by the correspondence with the real
+   builder (the model's graph equals the real one) and by the C15 walk. *)
+From DG Require Import Base.Util Base.Sexp Model.Graph Model.Builder Proofs.BuilderProofs Proofs.ChecksumProofs
+  Proofs.ClosureProofs.
+
+Theorem C01_complete : forall W o k roots imports g',
+  w_lock W = None ->
+  build W o (empty_bgraph k) roots imports = Some g' ->
+  (forall r, In r roots -> Settled g' r) /\
+  (forall t, In t (import_targets imports) -> Settled g' t) /\
+  (forall s m, lookup s (bg_slots g') = Some (BMod m) ->
+     (forall d t rg, In d (m_deps m) -> (d_dyn d && bo_skip_dynamic o) = false ->
+        d_code d = ROk t rg \/ d_type d = ROk t rg -> Settled g' t) /\
+     (forall td t rg, m_types_dep m = Some td -> td_res td = ROk t rg -> Settled g' t)).
+Proof. exact build_complete. Qed.
+Print Assumptions C01_complete.
+
+(* Settled g t unfolds to: t has an entry, or t is redirected to a settled specifier *)
+Theorem C01_settled_unfold : forall g t,
+  Settled g t <-> (has_key t (bg_slots g) = true \/
+                   exists r, lookup t (bg_redirects g) = Some r /\ Settled g r).
+Proof.
+  intros g t. unfold Settled. split.
+  - intro H. destruct H as [t Hk | t [] | t r Hl Hr]; [left; exact Hk | right; exists r; split; assumption].
+  - intros [Hk|[r [Hl Hr]]]; [apply SX_slot; exact Hk | eapply SX_red; eassumption].
+Qed.
+Print Assumptions C01_settled_unfold.
+
 
 Theorem C01_single_entry_step : forall (l : list (spec * bslot)) k v,
   NoDup (map fst l) -> NoDup (map fst (set_assoc k v l)).
